@@ -27,6 +27,10 @@ LEARN = {
                                   np.array([0, 0, 0, 0, 1, 1, 1, 1, -1, -1])),
     "two_classes_1d": (np.array([[0.0], [0.5], [1.0], [1.2], [3.0], [3.5], [4.0], [2.9]]), np.array([0, 0, 0, 0, 1, 1, 1, 1])),
 }
+# a feature with a very small extent (lengths in metres of millimetre-sized parts): everything that is relative to the learned range
+# must stay relative - a sample 5e-5 outside a range of extent 1.1e-3 is 4 % outside
+_TX = lambda X: np.column_stack([2.5e-2 + 1.3e-3 * np.asarray(X)[:, 0], np.asarray(X)[:, 1]])
+LEARN["tiny_extent_2d"] = (_TX(LEARN["three_classes_2d"][0]), LEARN["three_classes_2d"][1].copy())
 # evaluation data per learning set: inside, partly outside, entirely outside, with unlabelled samples
 EVAL = {
     "three_classes_2d": {
@@ -50,6 +54,18 @@ EVAL = {
         "unl": (np.array([[0.3], [3.2]]), np.array([-1, 1])),
         "single": (np.array([[2.0]]), np.array([1])),
     },
+}
+# labels with gaps (classes 0, 2 and 5): the class of a sample is its LABEL, not the position of the label in a list
+_GAP = lambda y: np.array([{0: 0, 1: 2, 2: 5}.get(int(v), int(v)) for v in y])
+LEARN["labels_gap_2d"] = (LEARN["three_classes_2d"][0].copy(), _GAP(LEARN["three_classes_2d"][1]))
+EVAL["labels_gap_2d"] = {k: (v[0].copy(), _GAP(v[1])) for k, v in EVAL["three_classes_2d"].items()}
+_lo0, _hi0 = float(LEARN["tiny_extent_2d"][0][:, 0].min()), float(LEARN["tiny_extent_2d"][0][:, 0].max())
+EVAL["tiny_extent_2d"] = {
+    "in": (_TX(EVAL["three_classes_2d"]["in"][0]), EVAL["three_classes_2d"]["in"][1].copy()),
+    "part": (np.array([[_TX([[0.12, 0.22]])[0][0], 0.22], [_hi0 + 5e-5, 0.5], [_TX([[0.85, 0.8]])[0][0], 0.8], [_lo0 - 8e-5, 0.3]]), np.array([0, 1, 1, 0])),
+    "out": (np.array([[_hi0 + 5e-5, 0.5], [_lo0 - 8e-5, 0.3]]), np.array([1, 0])),
+    "unl": (_TX(EVAL["three_classes_2d"]["unl"][0]), EVAL["three_classes_2d"]["unl"][1].copy()),
+    "single": (_TX(EVAL["three_classes_2d"]["single"][0]), EVAL["three_classes_2d"]["single"][1].copy()),
 }
 # "again": the DataSet OBJECT of the previous step is handed over once more (the library scaled it and removed its outside samples in
 # place): it is either refused (ValueError) or classified at the positions it holds now;
@@ -108,7 +124,15 @@ def _expected(cl, lo, fac, Xd, yd, prescaled=False):
         lib = np.array([np.asarray(k([tuple(p) for p in scin])).ravel() for k in classifiers]).T
         if lib.shape != dens.shape or not np.allclose(lib, dens, rtol=1e-9, atol=1e-10 * max(1.0, float(np.max(np.abs(dens))))):
             raise DensityMismatch("library density %r, reference %r" % (lib.tolist()[:3], dens.tolist()[:3]))
-        expc = np.argmax(dens, axis=1)
+        # the class of a classifier is the label of the samples it was trained on (found through the data of its operation object)
+        XL, yL = cl.get_learning_data().get_data()
+        XL = np.asarray(XL, dtype=float).reshape(len(yL), -1)
+        class_of = []
+        for o in ops:
+            row = np.asarray(o.data, dtype=float).reshape(-1, XL.shape[1])[0]
+            hit = np.nonzero(np.all(np.abs(XL - row) <= 1e-12, axis=1))[0]
+            class_of.append(int(yL[hit[0]]) if len(hit) else -999)
+        expc = np.array(class_of)[np.argmax(dens, axis=1)]
         gap = np.sort(dens, axis=1)
         tie = (gap[:, -1] - gap[:, -2]) < 1e-9 * np.maximum(1.0, np.abs(gap[:, -1])) if dens.shape[1] > 1 else np.zeros(len(scin), dtype=bool)
     else:
